@@ -389,6 +389,7 @@ def attr(base, name):
 
 
 MODULE_NAMES = set()   # filled by model: dotted names that denote modules
+DISPLAY_NAMES = {}     # canonical loop-variable name -> source identifier (display only)
 
 
 def slice_(lo, hi, step=NONE):
@@ -744,9 +745,9 @@ def show(t, depth=0):
     if k == 'adj':
         return f'adj({s(t[1])})'
     if k == 'phi':
-        return f'{t[2]}@{t[1]}'
+        return f'{DISPLAY_NAMES.get(t[2], t[2])}@{t[1]}'
     if k == 'after':
-        return f'{t[2]}@after({t[1]})'
+        return f'{DISPLAY_NAMES.get(t[2], t[2])}@after({t[1]})'
     if k == 'elem':
         p = ''.join(f'.{i}' for i in t[3])
         return f'each({s(t[1])}){p}'
